@@ -217,6 +217,7 @@ func runC08(p *core.Prog, r *core.Result) {
 		"R8.2 for every in-module value type with attributes, the names it advertises (AttrNames) are names it answers (Attr): the encoder's has-attrs branch never encodes a nil",
 		"R8.3 a pickler case whose arguments are an open environment (can contain the subject again, since recursion is enabled) needs an in-progress guard, because NEWOBJ results are memoized only after their arguments",
 		"R8.4 no nondeterminism source (clock, pid, random, directory order, addresses, Go-map order into an ordered sink) is reachable from the fingerprint computation",
+		"R8.9 whatever mutable state the pickler closure captures (the in-progress set behind the Recursion marker) is allocated by the call that creates the pickler: not a parameter fed from a pool or a package variable, so nothing one encoding did (least of all a failed one) can change what the next one emits",
 		"R8.8 a host value type whose contents are written at run time (a map or slice field updated by its methods) does not implement the interfaces the encoder pickles by content (IterableMapping, Sequence): such values (caches) enter the fingerprint as constants, not as what happens to be stored in them in this process",
 		"R8.7 the host pickler builds no (name, value) association lists of its own: only the lists returned by ModuleEnv/Env (one entry per binding, unique names) reach the unpickler's dictionary conversion, which collapses equal names",
 		"R8.6 every argument the host pickler builds for a subject is computed from that subject alone (no captured or package-level state in its data flow): distinct closures never share an argument object that the unpickler then completes in place",
@@ -343,6 +344,9 @@ func runC08(p *core.Prog, r *core.Result) {
 
 	// ---- R8.8 values with run-time contents are not fingerprinted by content
 	checkRuntimeStateNotPickledByContent(p, r)
+
+	// ---- R8.9 the pickler's own state lives for one encoding
+	checkPicklerStateFresh(p, r, picklers)
 
 	// ---- R8.7 the pickler builds no association lists of its own
 	nPk := 0
@@ -834,6 +838,106 @@ func checkPicklerCycleGuard(p *core.Prog, r *core.Result, picklers []*ssa.Functi
 
 var _ = constant.Int
 
+
+// checkPicklerStateFresh implements R8.9.
+func checkPicklerStateFresh(p *core.Prog, r *core.Result, picklers []*ssa.Function) {
+	n := 0
+	var fresh func(v ssa.Value, depth int) (bool, string)
+	fresh = func(v ssa.Value, depth int) (bool, string) {
+		switch x := core.Unwrap(v).(type) {
+		case *ssa.MakeMap, *ssa.MakeSlice, *ssa.MakeChan, *ssa.Const:
+			return true, ""
+		case *ssa.Alloc:
+			// a cell: everything stored into it must be fresh (or a closure: the pickler's own self-reference)
+			for _, f := range core.WithAnons(core.Outer(x.Parent())) {
+				bad := ""
+				core.Instrs(f, func(in ssa.Instruction) {
+					st, ok := in.(*ssa.Store)
+					if !ok || st.Addr != ssa.Value(x) {
+						return
+					}
+					if _, isClosure := core.Unwrap(st.Val).(*ssa.MakeClosure); isClosure {
+						return
+					}
+					if ok, why := fresh(st.Val, depth); !ok {
+						bad = why
+					}
+				})
+				if bad != "" {
+					return false, bad
+				}
+			}
+			return true, ""
+		case *ssa.MakeClosure, *ssa.Function:
+			return true, ""
+		case *ssa.Parameter:
+			// a parameter of the constructor: every caller must pass something fresh
+			if depth >= 2 {
+				return false, "a parameter of " + fname(x.Parent())
+			}
+			idx := paramIndex(x.Parent(), x)
+			callers := p.StaticCallers(x.Parent())
+			if len(callers) == 0 || len(p.FuncValueUses(x.Parent())) > 0 {
+				return false, "a parameter of " + fname(x.Parent()) + " whose callers cannot be enumerated"
+			}
+			for _, c := range callers {
+				if idx >= len(c.Common().Args) {
+					return false, "a parameter of " + fname(x.Parent())
+				}
+				if ok, why := fresh(c.Common().Args[idx], depth+1); !ok {
+					return false, "the parameter " + x.Name() + " of " + fname(x.Parent()) + ", which " + fname(c.Parent()) + " fills with " + why
+				}
+			}
+			return true, ""
+		case *ssa.UnOp:
+			if x.Op == token.MUL {
+				if g, ok := x.X.(*ssa.Global); ok {
+					return false, "the package variable " + g.Name()
+				}
+				if a, ok := x.X.(*ssa.Alloc); ok {
+					return fresh(a, depth)
+				}
+				return false, "a value loaded from " + core.Path(x.X)
+			}
+		case *ssa.TypeAssert:
+			return fresh(x.X, depth)
+		case *ssa.Call:
+			if cal := core.Callee(x); cal != nil {
+				return false, "the result of " + core.CalleeKey(cal)
+			}
+			return false, "the result of a dynamic call"
+		case *ssa.Global:
+			return false, "the package variable " + x.Name()
+		}
+		return false, "a value the rule cannot classify (" + v.String() + ")"
+	}
+	for _, pk := range picklers {
+		for _, fv := range pk.FreeVars {
+			// only mutable containers matter: maps, slices, pointers (cells are pointers to the captured variable)
+			t := fv.Type()
+			if pt, ok := t.(*types.Pointer); ok {
+				t = pt.Elem()
+			}
+			switch t.Underlying().(type) {
+			case *types.Map, *types.Slice, *types.Pointer, *types.Chan:
+			default:
+				continue
+			}
+			n++
+			b := core.Binding(fv)
+			construct := fmt.Sprintf("%s#captured:%s", fname(pk), fv.Name())
+			if b == nil {
+				r.Unk("R8.9", construct, p.Pos(pk.Pos()), "cannot find what the pickler closure binds %s to", fv.Name())
+				continue
+			}
+			ok, why := fresh(b, 0)
+			r.Check(ok, "R8.9", construct, p.Pos(pk.Pos()), "the pickler's captured "+fv.Name()+" is allocated by the call that creates the pickler: it lives for one encoding", "the pickler's captured "+fv.Name()+" is "+why+": it outlives one encoding, so what an earlier encoding left in it (functions marked in progress by an encoding that failed half-way) decides what a later one emits - the same project text fingerprints differently from one process or order of targets to the next, and an edit to a function emitted as a Recursion marker goes unnoticed")
+		}
+	}
+	if n == 0 {
+		r.OK("R8.9", "dawn#pickler-captures-nothing-mutable", "-", "the %d pickler function(s) capture no map, slice, pointer or channel", len(picklers))
+	}
+}
 
 // checkRuntimeStateNotPickledByContent implements R8.8. The encoder pickles any starlark.IterableMapping or
 // starlark.Sequence by its elements (before it looks at attributes). A module-level object whose elements are
